@@ -1,6 +1,6 @@
 //! Executes one op on the LeanString pool and, separately, on a clone of the oracle `String`.
 
-use crate::case::{CharRoute, CloneRoute, Int, Mode, Op, PushRoute, Step, StrRoute};
+use crate::case::{CharRoute, CloneRoute, Int, Mode, Op, PushRoute, Step, StrRoute, Via};
 use lean_string::{LeanString, ToLeanString, ToLeanStringError};
 use std::borrow::Cow;
 use std::fmt::{self, Write as _};
@@ -103,6 +103,28 @@ impl<'a> Iterator for StrIter<'a> {
         }
         self.pos += 1;
         Some(s.as_str())
+    }
+}
+
+/// A `LeanString` item that owns no buffer of its own (inline, or borrowing leaked static text), so that feeding it to
+/// `Extend<LeanString>` / `FromIterator<LeanString>` adds no allocator traffic to the step.
+fn lean_item(x: &str) -> LeanString {
+    LeanString::from_static_str(Box::leak(x.to_string().into_boxed_str()))
+}
+
+/// `&char` items (each reference points at a leaked cell, so it outlives the call).
+struct RefIter<'a> {
+    inner: CharIter<'a>,
+    hint: usize,
+}
+impl<'a> Iterator for RefIter<'a> {
+    type Item = &'static char;
+    fn next(&mut self) -> Option<&'static char> {
+        let c = self.inner.next()?;
+        Some(&*Box::leak(Box::new(c)))
+    }
+    fn size_hint(&self) -> (usize, Option<usize>) {
+        (self.hint, None)
     }
 }
 
@@ -322,11 +344,22 @@ fn build(step: &Step, pool: &[Option<LeanString>], statics: &[&'static str]) -> 
                 CloneRoute::Tls => src.to_lean_string(),
             }
         }
-        Op::CollectChars { hint, panic_at, chars } => {
-            CharIter { items: chars, pos: 0, hint: *hint, panic_at: *panic_at }.collect::<LeanString>()
+        Op::CollectChars { via, hint, panic_at, chars } => {
+            let it = CharIter { items: chars, pos: 0, hint: *hint, panic_at: *panic_at };
+            match via {
+                Via::Ref => RefIter { hint: *hint, inner: it }.collect::<LeanString>(),
+                _ => it.collect::<LeanString>(),
+            }
         }
-        Op::CollectStrs { panic_at, pieces } => {
-            StrIter { items: pieces, pos: 0, panic_at: *panic_at }.collect::<LeanString>()
+        Op::CollectStrs { via, panic_at, pieces } => {
+            let it = StrIter { items: pieces, pos: 0, panic_at: *panic_at };
+            match via {
+                Via::String => it.map(String::from).collect::<LeanString>(),
+                Via::Boxed => it.map(Box::<str>::from).collect::<LeanString>(),
+                Via::Cow => it.enumerate().map(|(k, x)| if k % 2 == 0 { Cow::Borrowed(x) } else { Cow::Owned(x.to_string()) }).collect::<LeanString>(),
+                Via::Lean => it.map(lean_item).collect::<LeanString>(),
+                _ => it.collect::<LeanString>(),
+            }
         }
         Op::Display { err_at, panic_at, pieces } => {
             let d = Pieces { pieces, err_at: *err_at, panic_at: *panic_at };
@@ -435,11 +468,22 @@ fn edit(step: &Step, slot: &mut Option<LeanString>) -> Result<Option<Option<char
                 s.shrink_to_fit()
             }
         }
-        Op::ExtendChars { hint, panic_at, chars, .. } => {
-            s.extend(CharIter { items: chars, pos: 0, hint: *hint, panic_at: *panic_at })
+        Op::ExtendChars { via, hint, panic_at, chars, .. } => {
+            let it = CharIter { items: chars, pos: 0, hint: *hint, panic_at: *panic_at };
+            match via {
+                Via::Ref => s.extend(RefIter { hint: *hint, inner: it }),
+                _ => s.extend(it),
+            }
         }
-        Op::ExtendStrs { panic_at, pieces, .. } => {
-            s.extend(StrIter { items: pieces, pos: 0, panic_at: *panic_at })
+        Op::ExtendStrs { via, panic_at, pieces, .. } => {
+            let it = StrIter { items: pieces, pos: 0, panic_at: *panic_at };
+            match via {
+                Via::String => s.extend(it.map(String::from)),
+                Via::Boxed => s.extend(it.map(Box::<str>::from)),
+                Via::Cow => s.extend(it.enumerate().map(|(k, x)| if k % 2 == 0 { Cow::Borrowed(x) } else { Cow::Owned(x.to_string()) })),
+                Via::Lean => s.extend(it.map(lean_item)),
+                _ => s.extend(it),
+            }
         }
         Op::WriteFmt { err_at, panic_at, pieces, .. } => {
             let d = Pieces { pieces, err_at: *err_at, panic_at: *panic_at };
@@ -565,7 +609,7 @@ pub fn exec_oracle(step: &Step, model: &[Option<String>], statics: &[&'static st
                 Op::CollectChars { panic_at, chars, .. } => {
                     acc = CharIter { items: chars, pos: 0, hint: 0, panic_at: *panic_at }.collect::<String>()
                 }
-                Op::CollectStrs { panic_at, pieces } => {
+                Op::CollectStrs { panic_at, pieces, .. } => {
                     acc = StrIter { items: pieces, pos: 0, panic_at: *panic_at }.collect::<String>()
                 }
                 Op::Display { err_at, panic_at, pieces } => {
